@@ -6,6 +6,7 @@ import shutil
 
 import vlib
 from vlib import Check, ToolError
+from checks import front_common
 
 
 def keyfn(b, r):
@@ -47,6 +48,8 @@ def run(tier):
         "itself - a key that only holds an echoed value is served by a read and not listed, as coded - but publishes, removes "
         "and imports are judged in the states it leads to (C06 covers the echo's own race)",
     ]
+    # ---- front door: the same specification replayed through the real HTTP routes and gRPC services of a node
+    front_common.run_front(c, sc, quick, own_c10=False)
     shutil.rmtree(sc, ignore_errors=True)
     return c.finish(
         rule="behaviours = TLC simulation of ConfigCenter.tla (publish / remove / import / echo over 6 keys in 2 tenants and 3 "
